@@ -139,21 +139,46 @@ func ruleGChg(c *Ctx) {
 			case strings.Contains(ca, "UpperLimitInc") && strings.HasSuffix(ca, "== -1)"):
 				limit = ct
 			default:
-				a, b, ok := binOf(pc.Cond, token.LEQ)
-				if !ok {
-					// available < fee guards the subtraction just as well; with the dust test
-					// that follows, the verdict at available == fee is the same (0 <= dust)
-					if a2, b2, ok2 := binOf(pc.Cond, token.LSS); ok2 && isAvail(a2) {
-						a, b, ok = a2, b2, true
+				// every inequality is read as  a <= b  (or a < b) with the available-side operand on the left:
+				// a > b is !(a <= b), a >= b is !(a < b), and with the operands swapped b >= a is a <= b
+				// (available < fee guards the subtraction as well as <=: with the dust test that follows the
+				// verdict at available == fee is the same, 0 <= dust)
+				var a, b *T
+				ok := false
+				truth := pc.Truth
+				strict := false
+				if pc.Cond.K == "bin" {
+					a, b = pc.Cond.Args[0], pc.Cond.Args[1]
+					switch pc.Cond.Op {
+					case token.LEQ:
+						ok = true
+					case token.LSS:
+						ok, strict = true, true
+					case token.GTR:
+						ok, truth = true, !truth
+					case token.GEQ:
+						ok, strict, truth = true, true, !truth
+					}
+					availSide := func(t *T) bool {
+						if isAvail(t) {
+							return true
+						}
+						x, _, ok2 := binOf(t, token.SUB)
+						return ok2 && isAvail(x)
+					}
+					if ok && !availSide(a) && availSide(b) {
+						a, b = b, a
+						strict, truth = !strict, !truth
 					}
 				}
 				if ok {
+					_ = strict
 					if isAvail(a) {
 						fees = b
-						leFees = fmt.Sprint(pc.Truth)
-					} else if x, y, ok2 := binOf(a, token.SUB); ok2 && isAvail(x) && b.String() == "1" {
+						leFees = fmt.Sprint(truth)
+					} else if x, y, ok2 := binOf(a, token.SUB); ok2 && isAvail(x) && b.String() == "1" && !strict {
 						if fees != nil && canonTerm(y) == canonTerm(fees) {
-							leDust = fmt.Sprint(pc.Truth)
+							leDust = fmt.Sprint(truth)
 						} else {
 							leDust = "other-fee-term"
 						}
